@@ -309,11 +309,15 @@ def run(tier, seed_):
                                            "trace_module": "TraceProv", "repo_head": common.repo_head()})
         print(f"VIOLATION property=C04 replay={path}")
         log(f"  {byrid[rid]['what']} ({byrid[rid]['kind']}) {cl}")
-    st = json.loads(json.dumps(next(r for r in recs if r["rid"] not in bad and r["kind"] == "obtained"
-                                    and any(0 <= e < 100 for e in r["post"]["edges"]))))
-    st["rid"] = "selftest"
-    st["post"]["uid"] = 0
-    if "C04:UidFresh" not in common.validate_records([st], "TraceProv").get("selftest", []):
+    st = json.loads(json.dumps(next((r for r in recs if r["rid"] not in bad and r["kind"] == "obtained"
+                                     and any(0 <= e < 100 for e in r["post"]["edges"])), None)))
+    if st is None:
+        if not nv:
+            raise common.MachineryError("C04 provenance self-test: no accepted record to corrupt")
+    else:
+        st["rid"] = "selftest"
+        st["post"]["uid"] = 0
+    if st is not None and not nv and "C04:UidFresh" not in common.validate_records([st], "TraceProv").get("selftest", []):
         raise common.MachineryError("C04 provenance self-test did not fire")
     ev = json.load(open(f"{common.EVID}/C04.json"))
     cov = ev["coverage"]
